@@ -73,11 +73,11 @@ CHECKS = {
             'Trusted: naga front end / validator / diagnostic renderer do not panic (library behaviour, not analysed).',
             'DESIGN.md section 3 C17'),
     'C18': ('whole-crate effect discipline over resolved callees in MIR: hash-order iteration, ambient input, retained state, gated process spawn',
-            'Decided for every resolved call site and static of the crate: hash containers are only used for membership (iteration accepted only into order-insensitive consumers); no env/time/fs/net/thread/random/pointer-address input in code reachable from the entry points; no static mut / interior-mutable static / thread-local; std::process only behind the rustfmt-gated call site. These are necessary and (given deterministic dependencies) sufficient structural conditions for the output to be a function of (source, include path, options). R5: the spawned formatter child is reaped - from the point where the Child exists every path to a normal return passes wait()/wait_with_output() (formatter helpers inlined at MIR level).',
+            'Decided for every resolved call site and static of the crate: hash containers are only used for membership (iteration accepted only into order-insensitive consumers); no env/time/fs/net/thread/random/pointer-address input in code reachable from the entry points; no static mut / interior-mutable static / thread-local; std::process only behind the rustfmt-gated call site. These are necessary and (given deterministic dependencies) sufficient structural conditions for the output to be a function of (source, include path, options). R5: the spawned formatter child is reaped - from the point where the Child exists every path to a normal return passes wait()/wait_with_output() (formatter helpers inlined at MIR level). Reachability is over a call graph that over-approximates dispatch the compiler leaves open: every crate implementation of an unresolved trait-method call (trait objects, bounded type parameters), the trait impls of a crate type that library code is instantiated with, Display/Debug impls behind format_args!, Drop impls at drops, every crate function of the signature of a function-pointer call.',
             'Trusted: determinism of naga, syn, prettyplease and of rustfmt itself; no hidden global state in dependencies.',
             'DESIGN.md section 3 C18'),
     'C19': ('MIR rules on the formatter functions: same tokens to both printers, no panic-capable callee, stdout use dominated by success/non-empty/write checks, identity text flow',
-            'Decided on every path of the functions behind the rustfmt-gated call: both printers get the same TokenStream local and nothing else happens in the two arms; no unwrap/expect/indexing/explicit panic; the captured stdout is only used under ExitStatus::success() && non-empty && write outcome checked; the returned text derives only by identity-like operations from the token string or the captured stdout (every fallback is the same program). The options reach the printer choice unchanged (shared pass-through rule). Timing, slow formatters and pipe deadlocks are not decided (OS scheduling).',
+            'Decided on every path of the functions behind the rustfmt-gated call: both printers get the same TokenStream local and nothing else happens in the two arms; no unwrap/expect/indexing/explicit panic; the captured stdout is only used under ExitStatus::success() && non-empty && write outcome checked; the returned text derives only by identity-like operations from the token string or the captured stdout (every fallback is the same program). The options reach the printer choice unchanged (shared pass-through rule). C19.d.stdout-drained: no bare wait()/try_wait() on a child with piped stdout before the pipe is read (the one pipe deadlock that is visible in the shape of the code). Timing and slow formatters are not decided (OS scheduling).',
             'Trusted: std::process/OS pipe semantics; rustfmt and prettyplease preserve the token sequence.',
             'DESIGN.md section 3 C19'),
     # id: (technique, level text, level note, design ref)
